@@ -492,6 +492,7 @@ pub fn install_host(ctx: &mut Context, log: &Log, table: &Table) {
         Ok(Value::String(name))
     });
     let l = log.clone();
+    ctx.add_function("peek", |ftx: &cel_interpreter::FunctionContext, name: Arc<String>| -> ResolveResult { ftx.ptx.get_variable(name.as_str()) });
     ctx.add_function("thisopt", move |This(x): This<Option<i64>>| -> ResolveResult {
         l.lock().unwrap().push(format!("thisopt:{x:?}"));
         Ok(x.map(Value::Int).unwrap_or(Value::Null))
